@@ -8,7 +8,6 @@ import (
 	"errors"
 	"fmt"
 	"io"
-	"math"
 	"unicode/utf8"
 
 	"github.com/ohler55/ojg/gen"
@@ -267,11 +266,12 @@ func (t *Tokenizer) tokenizeBuffer(buf []byte, last bool) error {
 				if digitMap[b] != numDigit {
 					break
 				}
-				t.num.I = t.num.I*10 + uint64(b-'0')
-				if math.MaxInt64 < t.num.I {
+				if gen.BigLimit <= t.num.I {
 					t.num.FillBig()
+					t.num.AddDigit(b)
 					break
 				}
+				t.num.I = t.num.I*10 + uint64(b-'0')
 			}
 			if digitMap[b] == numDigit {
 				off++
